@@ -25,7 +25,7 @@ FLOOR = {"quick": 30, "thorough": 250}
 
 
 def parts(tier):
-    return [{"name": "e2e", "n": 400 if tier == "quick" else 8000}]
+    return [{"name": "e2e", "n": 640 if tier == "quick" else 8000}]
 
 
 @gen.st.composite
